@@ -57,7 +57,7 @@ SAFE_BUILTINS: Dict[str, Callable] = {
     "frozenset": frozenset, "divmod": divmod, "pow": pow, "print": (lambda *a, **k: None),
 }
 EXC_NAMES = {"ValueError", "TypeError", "KeyError", "IndexError", "NotImplementedError", "RuntimeError", "AssertionError", "Exception",
-             "UnsupportedFileFormat", "ZeroDivisionError", "AttributeError", "StopIteration"}
+             "UnsupportedFileFormat", "ZeroDivisionError", "AttributeError", "StopIteration", "NameError"}
 
 BINOPS = {ast.Add: operator.add, ast.Sub: operator.sub, ast.Mult: operator.mul, ast.Div: operator.truediv, ast.FloorDiv: operator.floordiv,
           ast.Mod: operator.mod, ast.Pow: operator.pow, ast.BitAnd: operator.and_, ast.BitOr: operator.or_}
@@ -519,6 +519,8 @@ class Mini:
                 raise InterpRaise("AttributeError", str(ex), e)
             except StopIteration as ex:
                 raise InterpRaise("StopIteration", str(ex), e)
+            except NameError as ex:
+                raise InterpRaise("NameError", str(ex), e)
         if isinstance(e, (ast.List, ast.Tuple, ast.Set)):
             out: List[Any] = []
             for x in e.elts:
